@@ -8,6 +8,7 @@ import Noodles.Bgzf.DriverC03
 import Noodles.Cram.DriverC19
 import Noodles.Bcf.DriverC10
 import Noodles.Gff.DriverC18
+import Noodles.Trunc.DriverC13
 namespace Noodles
 open Noodles.Wire
 
@@ -22,6 +23,7 @@ def dispatch (line : String) : String :=
   | "c19" :: rest => Cram.Index.handleC19 rest
   | "c10" :: rest => Bcf.handleC10 rest
   | "c18" :: rest => Gff.Driver.handleC18 rest
+  | "c13" :: rest => Trunc.handleC13 rest
   | _ => "bad-suite"
 
 end Noodles
